@@ -11,10 +11,10 @@ COMMON_NOTE = (
     "canonicalisation in harness/sut.py, Fraction/JSON wire, Lean driver decoding); float64 is treated as exact on the dyadic "
     "input lattice (DESIGN.md §3); numpy/pandas/xarray/geographiclib behaviour is modelled, not verified. C01, C03, C04, C05, C07, C09, C11, C12, C14, C19, C20 also "
     "have source pins: literal tables, signature defaults, the layout dispatch of Config.__init__ (C07) and the window comparisons of the stream front ends (C05) "
-    "read from /repo by harness/extract.py (Python ast) and checked by the kernel against IoosQc/Theorems/SourcePin.lean on every run. C03, C04, C08, C09, C10, C11, C12, C13, C14, C19 additionally have a TRANSLATED model: harness/translate.py "
+    "read from /repo by harness/extract.py (Python ast) and checked by the kernel against IoosQc/Theorems/SourcePin.lean on every run. C03, C04, C06, C08, C09, C10, C11, C12, C13, C14, C19 additionally have a TRANSLATED model: harness/translate.py "
     "(Python ast -> Lean, a translator that raises on anything outside its vocabulary) regenerates the array-level Lean definitions of ALL ELEVEN QC test "
     "functions (gross_range, valid_range, location, climatology + ClimatologyConfig.check, spike, rate_of_change, flat_line, attenuated_signal, "
-    "density_inversion, pressure_increasing, speed), of qartod_compare and of PandasStore.save from /repo's current source on every run and the kernel checks that they are the "
+    "density_inversion, pressure_increasing, speed), of qartod_compare, collect_results_dict and PandasStore.save from /repo's current source on every run and the kernel checks that they are the "
     "definitions of IoosQc/Model/NpSrc.lean / NpAgg.lean / NpStore.lean, which Theorems/NpSrc … NpSrc7 + NpRefine prove equal to the pointwise models the property "
     "theorems are about (theorems Cxx_src_*; Theorems/SrcProps restates the property theorems directly about the translated programs, Cxx_prog_*; numpy.ma's data-under-mask semantics, strided windows, index arrays, for loops "
     "modelled in Model/Np and compared primitive by primitive with the installed numpy on every run); a rewritten body makes that pin 'reshaped' — "
@@ -107,7 +107,8 @@ CHECKS.update({
             "list and dict form agree. Correspondence on synthetic and stream-yielded ContextResult sequences in all / random orders. "
             "C06_sys_pieces_wf / C06_sys_collect / C06_sys_dict: in the composed pipeline model every piece is well formed (one flag per window row, by "
             "C01_length) and the collected columns carry the last covering context's flag, for every table and configuration; complete real runs "
-            "with several contexts are compared with IoosQc.systemRun.",
+            "with several contexts are compared with IoosQc.systemRun. C06_src_dict: collect_results_dict, regenerated from the source by harness/translate.py "
+            "(nested loops over ContextResults and CallResults, a mapping keyed by stream / package / test), leaves under every key the fold collectDict describes.",
             "Lean 4 proof (invariant of the collecting fold, permutation invariance, well-formedness in the pipeline model) + differential correspondence"),
     "C07": ("Theorems C07_context, C07_layout_contexts/context/streams/modules, C07_depth_*, C07_unknown_skipped, C07_main: the layout "
             "dispatch of Config on the parsed tree yields one call per configured (stream, module, test) for all four layouts. The eight "
